@@ -378,6 +378,35 @@ fn run_threshold_sequence(cx: &mut CaseCx, case: &Value) {
   cx.sample(json!({"thresholds_in_order": ts, "randomness": if server_src { "PPOPRF server" } else { "fixed 32 bytes" }}));
 }
 
+
+/// every threshold of a range: t+1 reports, identity / reversed / leave-first-out selections
+fn run_threshold_sweep(cx: &mut CaseCx, case: &Value) {
+  let t = case["t"].as_u64().unwrap() as usize;
+  let cfg = json!({"t": t, "m": 4, "e": 1, "auxoff": 0, "src": "local", "wire": t % 2 == 0});
+  let g = match build_group(cx, "C01", &cfg, t + 1) {
+    Some(g) => g,
+    None => return,
+  };
+  cx.nontrivial(t as u64);
+  let sels: Vec<Vec<usize>> = vec![(0..t).collect(), (0..=t).collect(), (0..=t).rev().collect(), (1..=t).collect(), (0..t).rev().collect()];
+  for sel in sels {
+    let shares: Vec<sta_rs::Share> = sel.iter().map(|&i| g.msgs[i].share.clone()).collect();
+    cx.eval();
+    cx.count("states", 1);
+    cx.count("transitions", 1);
+    match recover_msg(&shares) {
+      Ok(Ok(m)) => {
+        cx.count("ok_recoveries", 1);
+        if !matches!(open_report(&g.msgs[0], &m, &g.epoch), Ok((mm, aa)) if mm == g.meas && aa == g.auxs[0]) {
+          cx.viol("C01/threshold-sweep/decrypt-mismatch", format!("t={}: report does not open to its client's inputs", t), json!({"t": t, "selection": if sel.len() > 8 { json!(format!("{} shares", sel.len())) } else { json!(sel) }}));
+        }
+      }
+      other => cx.viol("C01/threshold-sweep/recover-failed", format!("threshold {}: {} distinct shares (order {}) do not recover: {:?}", t, sel.len(), if sel.first() < sel.last() { "ascending" } else { "descending" }, other.map(|r| r.map(|_| ()))), json!({"t": t, "shares": sel.len(), "first_index": sel[0]})),
+    }
+  }
+  cx.outcome(format!("t%64={}", t % 64));
+}
+
 /// boundary search on an internal value: measurements whose sharing key K has a zero / 0xff first or last byte
 fn run_boundary_keys(cx: &mut CaseCx, case: &Value) {
   let t = case["t"].as_u64().unwrap() as u32;
@@ -498,6 +527,20 @@ pub fn spec() -> PropSpec {
         },
         run: run_threshold_sequence,
         min_counts: &[("ok_recoveries", 200)],
+      },
+      Check {
+        name: "threshold-sweep",
+        rule: "EVERY threshold t in 1..=130 plus {191..194, 255..258} (thorough: + 511..515, 600): t+1 reports, selections = first t, all, all reversed, last t, first t reversed: recover and open (threshold-dependent arithmetic: windows, batches, binomials)",
+        gen: |tier| {
+          let mut ts: Vec<u64> = (1..=130).collect();
+          ts.extend([191, 192, 193, 194, 255, 256, 257, 258]);
+          if tier.thorough() {
+            ts.extend([511, 512, 513, 514, 515, 600]);
+          }
+          ts.into_iter().map(|t| json!({"t": t})).collect()
+        },
+        run: run_threshold_sweep,
+        min_counts: &[("ok_recoveries", 600)],
       },
       Check {
         name: "boundary-keys",
